@@ -103,6 +103,8 @@ class QNames:
     aref: Optional[QName] = field(default=None, metadata={"type": "Attribute"})
     arefs: list[QName] = field(default_factory=list, metadata={"type": "Attribute", "tokens": True, "namespace": NS_A})
     qe: Optional[QEnum] = field(default=None, metadata={"type": "Element", "namespace": NS_C})
+    # a WRAPPED list in a namespace of its own: the serializer declares the prefix on the wrapper element, the items use it
+    wrapped: list[QName] = field(default_factory=list, metadata={"type": "Element", "name": "w", "wrapper": "ws", "namespace": NS_C})
 
 
 @dataclass
